@@ -1,20 +1,17 @@
-# /verif/Makefile -- `make setup` builds the whole framework offline from files on disk.
+# /verif/Makefile -- `make setup` builds the framework offline from files on disk:
+# regenerated Gen/ tables, the Coq cone (full .vo) and the extracted models of every claimed check.
 SHELL := /bin/bash
 PY := /venv/bin/python
 
-.PHONY: setup coq models gen clean
+.PHONY: setup all-coq clean
 
-setup: gen coq models
+setup:
+	$(PY) harness/setup_build.py
 
-gen:
-	@if [ -f harness/gen_tables.py ]; then PYTHONPATH=/repo PYTHONHASHSEED=0 $(PY) harness/gen_tables.py; fi
-
-coq:
+# everything under coq/theories, including work in progress
+all-coq:
 	cd coq && ./mk_coqproject.sh && coq_makefile -f _CoqProject -o Makefile
 	cd coq && timeout 5400 $(MAKE) -j16 -k
-
-models:
-	$(PY) harness/build_models.py
 
 clean:
 	-cd coq && [ -f Makefile ] && $(MAKE) clean
